@@ -555,6 +555,36 @@ theorem core_not_refused {W O : Type} (env : Env W O) (w : W) (hs : Bytes) (sc :
   simp only [h3, he]
   rfl
 
+-- ---------------------------------------------------------------- the account table under a rename
+
+/-- The account table after `AccountManager.Update(account, newLogin)` with a changed login: the new
+    login resolves to the (possibly re-hashed) account, the old login to nothing, every other login
+    as before. -/
+def renameAcct (accts : Bytes → Option Bytes) (old new newHash : Bytes) : Bytes → Option Bytes :=
+  fun l => if l = new then some newHash else if l = old then none else accts l
+
+theorem renameAcct_old (accts : Bytes → Option Bytes) (old new h : Bytes) (hne : old ≠ new) :
+    renameAcct accts old new h old = none := by
+  simp [renameAcct, hne]
+
+theorem renameAcct_new (accts : Bytes → Option Bytes) (old new h : Bytes) :
+    renameAcct accts old new h new = some h := by
+  simp [renameAcct]
+
+theorem renameAcct_other (accts : Bytes → Option Bytes) (old new h l : Bytes) (h1 : l ≠ old) (h2 : l ≠ new) :
+    renameAcct accts old new h l = accts l := by
+  simp [renameAcct, h1, h2]
+
+/-- No account for the named login: never authenticated, whatever the password. -/
+theorem authenticate_no_account {W O : Type} (env : Env W O) (t : Transaction) (h : env.accts (loginOf t) = none) :
+    authenticate env t = false := by
+  simp [authenticate, h]
+
+/-- A stored hash that verifies no password: never authenticated. -/
+theorem authenticate_unverifiable {W O : Type} (env : Env W O) (t : Transaction) (hh : Bytes)
+    (h : env.accts (loginOf t) = some hh) (hv : env.verify hh (pwOf t) = false) : authenticate env t = false := by
+  simp [authenticate, h, hv]
+
 -- ---------------------------------------------------------------- a concrete instance (non-vacuity examples, oracle)
 
 /-- A small concrete environment: world = number of handler invocations, outputs = ids of the
